@@ -753,6 +753,14 @@ func runSchedule(tw *traceWriter, sch cliSchedule) {
 			}
 		}
 	}
+	if !r.drifted && agentTW != nil {
+		// the Agent's own history in this run (calls are sequential in a gated replay), judged against AgentCore
+		agentTW.emit(map[string]interface{}{"k": "new", "tr": sch.Tr, "h": 0, "n": 3, "tl": 0})
+		for _, c := range ga.history() {
+			agentTW.emit(map[string]interface{}{"k": "call", "tr": sch.Tr, "op": c.Op, "id": c.ID, "d": c.D, "t": c.T, "h": c.H,
+				"res": c.Res, "evs": c.Evs})
+		}
+	}
 	r.emit(map[string]interface{}{"k": "end", "drifted": r.drifted})
 	// cleanup outside the recorded behaviour
 	atomic.StoreInt32(&r.logging, 0)
@@ -795,9 +803,20 @@ func (g *gConn) forceClose() {
 	g.mu.Unlock()
 }
 
+// agentTW receives the Agent's history of every replayed schedule (VERIF_AGENT_TRACE_OUT)
+var agentTW *traceWriter
+
 func TestVerifClientReplay(t *testing.T) {
 	tw := newTrace(t)
 	defer tw.close()
+	if p := os.Getenv("VERIF_AGENT_TRACE_OUT"); p != "" {
+		f, err := os.Create(p)
+		if err != nil {
+			t.Fatal(err)
+		}
+		agentTW = &traceWriter{f: f, w: bufio.NewWriterSize(f, 1<<20)}
+		defer agentTW.close()
+	}
 	f, err := os.Open(os.Getenv("VERIF_VECTORS"))
 	if err != nil {
 		t.Fatal(err)
